@@ -13,9 +13,18 @@ import (
 )
 
 func main() {
-	if len(os.Args) >= 2 && os.Args[1] == "worker" {
-		mon.WorkerMain(os.Args[2:])
-		return
+	if len(os.Args) >= 2 {
+		switch os.Args[1] {
+		case "worker":
+			mon.WorkerMain(os.Args[2:])
+			return
+		case "c13child":
+			mon.C13Child(os.Args[2:])
+			return
+		case "c13race":
+			mon.C13Race(os.Args[2:])
+			return
+		}
 	}
 	if len(os.Args) < 3 {
 		fmt.Fprintln(os.Stderr, "usage: verif <ID> <quick|thorough> [--replay file]")
